@@ -478,7 +478,7 @@ def run(tier, seed):
         _STATE["dir"] = tmpdir
         _STATE.pop("sf", None)
         tasks, slow_vals, n_enum, n_cp = _plan(tier, seed, tmpdir)
-        total, skipped = _run_tasks(tasks, budget=(540 if tier == "thorough" else 30))
+        total, skipped = _run_tasks(tasks, budget=(1800 if tier == "thorough" else 600))  # wall-clock safety net only: the task list is fixed, a loaded machine must not shrink it
 
         failures = []
         for finding, roots in sorted(total["fails"].items(), key=lambda kv: (kv[0] is None, str(kv[0]))):
@@ -529,13 +529,11 @@ def run(tier, seed):
         )
         if skipped:
             res["truncated_tasks"] = skipped
-            res["failures"].append(dict(finding=None, input=f"{skipped} of {len(tasks)} tasks", detail="time budget used up before all tasks finished (or a worker died); the bound stated for this stand-in was NOT covered",
-                                        replay_code="raise AssertionError('B-str did not finish inside its time budget')"))
+            # not a property violation: the run is incomplete (checker fault, exit 3), never a VIOLATION line
+            res["error"] = f"{skipped} of {len(tasks)} tasks did not finish inside the safety-net time budget (or a worker died); the stated bound was not covered"
         return res
     except Exception:
-        return dict(evaluated=0, distinct=0, samples=[], cross_checks=[],
-                    failures=[dict(finding=None, input="harness", detail="B-str harness crashed:\n" + traceback.format_exc(),
-                                   replay_code="raise AssertionError('B-str harness crashed; see detail')")])
+        return dict(evaluated=0, distinct=0, samples=[], cross_checks=[], failures=[], error="B-str harness crashed: " + traceback.format_exc()[-1200:])
     finally:
         if tmpdir:
             shutil.rmtree(tmpdir, ignore_errors=True)
